@@ -135,7 +135,11 @@ pub fn run_check(prop: &str, tier: &str) -> i32 {
         "C03" => {
             let s = suites::crash_suites(thorough);
             let plan = crashprops::CrashPlan { crash: true, layout_tag: "C10", nest: 0, reopen_cycles: 0, sector_tear: true, layout: false, probe_auto_ts: false };
-            crashprops::crash_check(prop, s, &["C03"], plan, budget, &mut report);
+            crashprops::crash_check(prop, s, &["C03"], plan, budget * 0.65, &mut report);
+            // a crash inside recovery's own repair writes is a crash instant too: nested images
+            let s = suites::crash_suites(thorough);
+            let plan = crashprops::CrashPlan { crash: true, layout_tag: "C10", nest: if thorough { 2 } else { 1 }, reopen_cycles: 0, sector_tear: false, layout: false, probe_auto_ts: false };
+            crashprops::crash_check(prop, s, &["C03"], plan, budget * 0.35, &mut report);
         }
         "C04" => {
             let s = suites::crash_suites(thorough);
